@@ -1,4 +1,4 @@
-import BiotiteModel.Proofs.C18File
+import BiotiteModel.Proofs.C18Float
 import BiotiteModel.Gen.C18
 /-!
 # C18 — property theorems (MOL/SDF files; tables of the RDKit bridge)
@@ -404,6 +404,26 @@ theorem C18_sdf_file_roundtrip (rs : List SDRec) (d : Nat) (v : Version) (ls : L
       sdfDeserialize ls = .ok (rs.map fun r => (r.header.molName, ⟨r.header, r.mol.rt dc, r.md⟩)) :=
   sdf_file_roundtrip rs d v ls hne hok hnames h
 
+/-! ## Coordinates after the float32 store -/
+
+/-- **"Coordinates to 0.0001", over ℚ.**  Let `x = q.val` be a float32 (`IsF32`: `m·2^e`,
+`|m| < 2²⁴`) that is written; the text in the file is `fmt4 q`, which the reader parses to the
+decimal `q.dec` (`pyFloat_fmt4`), and `|q.dec − x| ≤ ½·10⁻⁴`.  If the value `d'` that reaches the
+float32 store is within `ε` of that decimal (`ε` = rounding error of `float()`, ≤ 2⁻³⁷ below 2¹⁷;
+`ε = 0` for an exact conversion) and the stored `y` is a float32 nearest to `d'` (IEEE
+round-to-nearest, any tie rule — *assumed* of numpy, not modelled), then `|y − x| ≤ 10⁻⁴ + 2ε`.
+The proof only uses that `x` itself is on the float32 grid, so it is a candidate for "nearest". -/
+theorem C18_coord_reround (q : Q) (hden : 0 < q.den) (hx : IsF32 q.val) (d' y ε : ℚ)
+    (hd' : |d' - q.dec.val| ≤ ε) (hy : NearestF32 d' y) :
+    pyFloat (fmt4 q) = some q.dec ∧ |q.dec.val - q.val| ≤ 1 / 20000 ∧ |y - q.val| ≤ 1 / 10000 + 2 * ε :=
+  ⟨pyFloat_fmt4_tight q, dec_close q hden, reround q hden hx d' y ε hd' hy⟩
+
+/-- With an exact decimal → float32 conversion the coordinate read back is within 10⁻⁴. -/
+theorem C18_coord_reround_exact (q : Q) (hden : 0 < q.den) (hx : IsF32 q.val) (y : ℚ)
+    (hy : NearestF32 q.dec.val y) : |y - q.val| ≤ 1 / 10000 := by
+  have := reround q hden hx q.dec.val y 0 (by simp) hy
+  linarith
+
 /-! ## Non-vacuity and concrete round trips (evaluated by the kernel)
 
 The examples below show that the hypotheses of the theorems above (`WFMol`, `FitsV2000`,
@@ -481,5 +501,10 @@ example : exRecs ≠ [] ∧ (∀ r ∈ exRecs, RecOk r ∧ NoDelim r) ∧ (exRec
 example : ((sdfSerialize exRecs 0 .auto).toOption.map (·.length)) = some 31 := by decide
 example : (sdfSerialize exRecs 0 .v3000).bind sdfDeserialize
     = .ok (exRecs.map fun r => (r.header.molName, ⟨r.header, r.mol.rt 8, r.md⟩)) := by decide
+
+/-- −1/32 is a float32, and a float32 is its own nearest float32 -/
+example : IsF32 (Q.val ⟨true, 1, 32⟩) ∧ NearestF32 (Q.val ⟨true, 1, 32⟩) (Q.val ⟨true, 1, 32⟩) := by
+  have h : IsF32 (Q.val ⟨true, 1, 32⟩) := ⟨-1, -5, by norm_num, by norm_num, by simp [Q.val]; norm_num⟩
+  exact ⟨h, h, fun z _ => by simp⟩
 
 end BiotiteModel.C18
